@@ -1046,6 +1046,14 @@ def op_digest(op):
     return tuple([k] + [repr(op[x]) for x in sorted(op) if x not in ("op", "cls")])
 
 
+def _far(nudge):
+    M = np.eye(4)
+    c, s_ = np.cos(0.3), np.sin(0.3)
+    M[:2, :2] = [[c, -s_], [s_, c]]
+    M[:3, 3] = [2500.0 + 0.01 * nudge, -4.0e5 + 1.0 * nudge, 100.0]
+    return M
+
+
 def alphabet():
     M1, M2, M3, M4, M5 = fixed_matrices()
     q = _unit([0.9, 0.1, -0.3, 0.2])
@@ -1058,6 +1066,16 @@ def alphabet():
         {"op": "update", "to": "a", "from": "world", "kw": {"matrix": M3}, "cls": "M3"},
         {"op": "update", "to": "a", "from": "c", "kw": {"matrix": M5}, "cls": "M5sim"},
         {"op": "update", "to": "a", "from": None, "kw": {"geometry": "g2"}, "cls": "geometry_only"},
+        # an edge far from the origin, then the same edge moved by an amount that is tiny
+        # RELATIVE to what is stored (1e-6 .. 4e-6) but far above the documented 1e-8 "unchanged"
+        # tolerance: the update must not be swallowed by a relative comparison
+        {"op": "update", "to": "a", "from": "world", "kw": {"matrix": _far(0.0)}, "cls": "M_far"},
+        {"op": "update", "to": "a", "from": "world", "kw": {"matrix": _far(1.0)}, "cls": "M_far_nudged"},
+        # re-parenting that keeps the local transform byte-identical (same grasp offset under
+        # another parent): only the PARENT of the edge changes, so anything that identifies an
+        # edge by its child or by its matrix alone cannot see it
+        {"op": "update", "to": "b", "from": "world", "kw": {"quaternion": q, "translation": [0.5, -1.0, 2.0]}, "cls": "q+t_same_as_under_a"},
+        {"op": "update", "to": "c", "from": "a", "kw": {"axis": _unit([1, -1, 2]), "angle": 1.3, "geometry": "g1"}, "cls": "aa_same_as_under_b"},
         {"op": "remove_node", "node": "a"},
         {"op": "remove_node", "node": "b"},
         {"op": "remove_geometries", "names": ["g1"]},
